@@ -383,6 +383,52 @@ def run(check, repo: Repo) -> None:
                                      f"later dimension receive the wrong arrays")
     check.floor("fancy assignment loops", n_f, 2)
 
+    # ---- R9 the nest builder creates a distinct list object at every level and position ----------------------------------
+    _, nl = repo.func(f"{VEC}:nested_list")
+    check.analysed(f"{VEC}:nested_list")
+    recursive = [c for c in calls_in(nl) if call_name(c) == "nested_list"]
+    comps = [n for n in ast.walk(nl) if isinstance(n, ast.ListComp)]
+    fresh, why_ = None, ""
+    if recursive and all(any(any(x is c for x in ast.walk(cp.elt)) for cp in comps) for c in recursive):
+        fresh, why_ = True, "every element is built by its own recursive call"
+    else:
+        shallow = []
+        for cp in comps:
+            for x in ast.walk(cp.elt):
+                if isinstance(x, ast.Call) and ((isinstance(x.func, ast.Name) and x.func.id in ("list", "tuple")) or (isinstance(x.func, ast.Attribute) and x.func.attr == "copy")
+                                                or (call_name(x) or "") == "copy.copy"):
+                    shallow.append(unparse(x))
+                if isinstance(x, ast.Subscript) and isinstance(x.slice, ast.Slice) and x.slice.lower is None and x.slice.upper is None:
+                    shallow.append(unparse(x))
+            if isinstance(cp.elt, ast.Name) and not any(isinstance(t, ast.Name) and t.id == cp.elt.id for g in cp.generators for t in ast.walk(g.target)):
+                shallow.append(f"{cp.elt.id} (the same object for every element)")
+        repl = [unparse(n)[:40] for n in ast.walk(nl) if isinstance(n, ast.BinOp) and isinstance(n.op, ast.Mult) and any(isinstance(sd, ast.List) for sd in (n.left, n.right))]
+        deep = any((call_name(c) or "") == "copy.deepcopy" for c in calls_in(nl))
+        if (shallow or repl) and not deep:
+            fresh, why_ = False, f"{(shallow + repl)[0]}: a shallow copy / replication shares the lists one level further down"
+        elif deep:
+            fresh, why_ = True, "levels are deep-copied"
+    if fresh is None:
+        raise AnalysisError("nested_list: construction idiom not recognised")
+    check.decide(fresh, "C11-R9", "nested_list: every position of every level is its own list object", why_, mod.line(nl),
+                 fail_detail=f"{why_}: with three or more fixed dimensions v[0, i, j] and v[1, i, j] are one storage slot — setting one cell populates others")
+
+    # ---- R10 assigning to a field always writes: the string arm of __setitem__ reaches set_flattened on every path that returns ---------
+    from ..core.cfg import CFG as _CFG
+    si = methods["__setitem__"]
+    scfg = _CFG(si)
+    kparam = func_params(si)[1]
+    arm = next((n for n in walk_no_nested_defs(si) if isinstance(n, ast.If) and isinstance(n.test, ast.Call) and call_name(n.test) == "isinstance" and n.test.args
+                and dotted(n.test.args[0]) == kparam and "str" in unparse(n.test.args[1])), None)
+    if arm is None:
+        raise AnalysisError("Vector.__setitem__: string-key arm not found")
+    tnode = [n.id for n in scfg.nodes if n.kind == "branch" and n.stmt is arm and n.polarity]
+    writes = [n for c in calls_in(si) if isinstance(c.func, ast.Attribute) and c.func.attr == "set_flattened" for n in scfg.node_containing(c)]
+    if not tnode:
+        raise AnalysisError("Vector.__setitem__: branch node of the string-key arm not found")
+    check.decide(bool(writes) and scfg.all_paths_pass_through(tnode[0], scfg.exit, writes), "C11-R10", "Vector.__setitem__[field name]: every path that returns has written the field (set_flattened)", "",
+                 mod.line(arm), fail_detail="a path through the field-name arm returns without set_flattened(value): `v['w'] = v['x']` (a view of ANOTHER field of the same vector) silently does nothing")
+
     # ---- R8 selection results hold the source cells themselves --------------------------------------
     # In the slicing arm of __getitem__ every value stored into the result nest must be a cell reached by walking self._data with
     # the per-axis index.  Going through get_data() is not equivalent: it returns the bare cell (not a one-element list) when the
